@@ -129,9 +129,9 @@ PROPS = {
              "args": ["--mix", "satisfy=4,iterate=3,optimise=1,assume=1"]},
             {"name": "minimiser", "mode": "tap", "quick": 400, "thorough": 8000, "args": []},
         ],
-        "lean_modules": ["Pumpkin.Model.SemMin", "Pumpkin.Model.RecMin"],
+        "lean_modules": ["Pumpkin.Model.SemMin", "Pumpkin.Model.RecMin", "Pumpkin.Model.PropagationCompile"],
         "relevant": c02_relevant,
-        "level_text": "recursive_minimiser_preserves_meaning: Model/RecMin.lean mirrors recursive_minimiser.rs (initial labels, allowed decision levels, compute_label with its depth cut-off, decision / level / Poison rules, the sweep which keeps Poison and Keep) over opaque predicates and an arbitrary reason graph; proved for every nogood, every acyclic reason graph and every depth limit: whenever the kept predicates hold, all predicates of the original nogood hold (removeDominated_sound), and nothing is invented (recursive_minimiser_subset). Tied exactly: the hook records every run of the real minimiser (initial labels, each compute_label call with its outcome and the non-root antecedents of each requested reason, result) and the model, fed with that reason graph, must keep the same predicates in the same order and make the same sequence of calls with the same outcomes; the observed reason graph must be acyclic; through the hook the depth limit is lowered to 1-6 on a third of the cases so that the cut-off branch runs on small models. semantic_minimiser_preserves_meaning: Model/SemMin.lean mirrors semantic_minimiser.rs (apply_predicates, hole propagation loops, redundant-hole removal, consistency, description relative to the original domain, equality merging) and is proved meaning-preserving for every nogood, every original domain and every assignment; tied exactly: the hook records input and output of every call of the real minimiser during search and the model must return the same set of predicates (or 'trivially false'). Proof: the oracle is exact (mem_solutions, solutions_eq_nil_iff), so an accepted Unsatisfiable verdict or posting error means the (prefix) model has no satisfying assignment, and a prefix-unsat model is unsat. Tie to code: every verdict of satisfy and every Err from post/add_clause on generated models is judged against the oracle; non-termination is observed as a poll cap / wall-clock cap.",
+        "level_text": "root_conflict_unsat / search_conflict_sound: an infeasibility reported while posting (Pg.rootFix = conflict) is only reported for models without solutions and a conflict of the propagation fixpoint after a decision refutes the current domains, for every model of the modelled constraint kinds (propagator models of Model/Propagation.lean, tied to the real solver by the exact `fix` correspondence run under C17/C12). recursive_minimiser_preserves_meaning: Model/RecMin.lean mirrors recursive_minimiser.rs (initial labels, allowed decision levels, compute_label with its depth cut-off, decision / level / Poison rules, the sweep which keeps Poison and Keep) over opaque predicates and an arbitrary reason graph; proved for every nogood, every acyclic reason graph and every depth limit: whenever the kept predicates hold, all predicates of the original nogood hold (removeDominated_sound), and nothing is invented (recursive_minimiser_subset). Tied exactly: the hook records every run of the real minimiser (initial labels, each compute_label call with its outcome and the non-root antecedents of each requested reason, result) and the model, fed with that reason graph, must keep the same predicates in the same order and make the same sequence of calls with the same outcomes; the observed reason graph must be acyclic; through the hook the depth limit is lowered to 1-6 on a third of the cases so that the cut-off branch runs on small models. semantic_minimiser_preserves_meaning: Model/SemMin.lean mirrors semantic_minimiser.rs (apply_predicates, hole propagation loops, redundant-hole removal, consistency, description relative to the original domain, equality merging) and is proved meaning-preserving for every nogood, every original domain and every assignment; tied exactly: the hook records input and output of every call of the real minimiser during search and the model must return the same set of predicates (or 'trivially false'). Proof: the oracle is exact (mem_solutions, solutions_eq_nil_iff), so an accepted Unsatisfiable verdict or posting error means the (prefix) model has no satisfying assignment, and a prefix-unsat model is unsat. Tie to code: every verdict of satisfy and every Err from post/add_clause on generated models is judged against the oracle; non-termination is observed as a poll cap / wall-clock cap.",
         "level_note": LEVEL_NOTE_COMMON + "Completeness (termination) of real CDCL with restarts/deletion is not a theorem; observed only.",
         "assumptions": ["termination is observed as: no solve exceeds 2,000,000 polls of the termination condition and no case exceeds the stream timeout"],
     },
@@ -200,8 +200,8 @@ PROPS = {
             {"name": "fixroot", "mode": "fix", "quick": 1500, "thorough": 40000, "args": []},
         ],
         "relevant": c12_relevant,
-        "lean_modules": ["Pumpkin.Model.Propagation"],
-        "level_text": "Proof: bounds_enclose / view_bounds_enclose (accepted bounds enclose every solution), view_rule (AffineView bound rule with swap on negative scale is enclosing), more_constraints_fewer_solutions. Tie to code: after every posting step lower_bound/upper_bound of every variable and of random views and get_literal_value are read from the real solver: must enclose all oracle solutions, lie in the declared domain, be monotone along the sequence, and equal the view rule applied to the inner bounds.",
+        "lean_modules": ["Pumpkin.Model.Propagation", "Pumpkin.Model.PropagationCompile"],
+        "level_text": "Proof: root_state_encloses: the modelled root state Pg.rootFix (constraints posted one after the other, decomposed into propagators as pumpkin_solver::constraints does — compile_fwd proves the decomposition keeps the meaning, compile_wf the variables — each propagated to the fixpoint of the propagator models of Model/Propagation.lean, pass_ok) contains the value of every variable in every solution, for every model of the modelled constraint kinds; tied exactly: the real root domains of every variable after posting (observed through a recording brancher) must equal the model's (`fix root` records, 1500 models per quick run), and the oracle checks them against the solution set. bounds_enclose / view_bounds_enclose (accepted bounds enclose every solution), view_rule (AffineView bound rule with swap on negative scale is enclosing), more_constraints_fewer_solutions. Tie to code: after every posting step lower_bound/upper_bound of every variable and of random views and get_literal_value are read from the real solver: must enclose all oracle solutions, lie in the declared domain, be monotone along the sequence, and equal the view rule applied to the inner bounds.",
         "level_note": LEVEL_NOTE_COMMON,
     },
     "C18": {
@@ -258,8 +258,8 @@ PROPS = {
             {"name": "fix", "mode": "fix", "quick": 2500, "thorough": 60000, "args": []},
         ],
         "relevant": panic_or({"infer", "minfer", "nogood", "bad", "implicit", "fix"}, ["tap", "fix"]),
-        "lean_modules": ["Pumpkin.Model.ImplicitReason", "Pumpkin.Model.Propagation"],
-        "level_text": "Proof: implicit_reason_entails / implicit_reason_progress — Model/ImplicitReason.lean mirrors the nine arms (and assertion guards) of get_propagation_reason for predicates that are not literally on the trail; every reason it produces entails the explained predicate for ALL integer values and never contains it; tied exactly: the hook records the trail predicate next to each implicit reason and the model must produce the identical list. checkInference_iff — the acceptor for an explanation (premises -> conclusion, or -> false) is equivalent to semantic entailment from the single tagged constraint within the declared domains, hence sound AND complete (never rejects a valid explanation); accepted_propagation / accepted_conflict / never_prunes_solution / accepted_model_inference. Tie to code (hook: explanation tap): every propagation (reason computed immediately, lazy reasons included), every reported conflict, every reason handed to conflict analysis later (explicit, lazily recomputed, implicit) and every learned nogood during real searches is recorded with the propagator's tag and judged; 'all reason predicates hold in the state in which the reason is given' is evaluated inside the hook.",
+        "lean_modules": ["Pumpkin.Model.ImplicitReason", "Pumpkin.Model.Propagation", "Pumpkin.Model.PropagationSound", "Pumpkin.Model.PropagationArith", "Pumpkin.Model.PropagationCompile"],
+        "level_text": "Proof: Model/Propagation.lean models the propagators themselves as functions on domains, statement by statement after the Rust sources (LinearLeq, LinearNe, IntAbs, Maximum, IntTimes incl. propagate_signs, Division incl. sign normalisation / propagate_upper_bounds / propagate_positive_domains, Element (four phases), the unit rule of the nogood propagator after add_permanent_nogood's semantic minimisation, the reified wrapper with detect_inconsistency and the initialise_at_root conflict), the decomposition of constraints into propagators (equals, not_equals, all_different, minimum, negation, implied_by, reify) and the fixpoint; pass_ok / propagation_never_prunes / propagation_conflict_sound / fixpoint_never_prunes prove for ALL domain states, views and constants that a pass (and the fixpoint of any set of propagators) never removes a value used by a solution of its constraint within the current domains and reports a conflict only if there is none (the division and multiplication rules included: truncating division, sign cases, ceil/floor bounds). Tied exactly: a recording brancher snapshots the domains of all variables at every decision point of real solves (`fix` records); root state = model of sequential posting, state after each decision = fixpoint of (previous state + decision), conflicts = model conflicts, exactly, until the first learned nogood (afterwards the real state must be a subset); independently the verified oracle checks that no value of a solution within the start domains is ever pruned. A mismatch that is not a pruned solution is reported as a broken correspondence (no-failing-input-found unless the run's oracle-judged records find one). implicit_reason_entails / implicit_reason_progress — Model/ImplicitReason.lean mirrors the nine arms (and assertion guards) of get_propagation_reason for predicates that are not literally on the trail; every reason it produces entails the explained predicate for ALL integer values and never contains it; tied exactly: the hook records the trail predicate next to each implicit reason and the model must produce the identical list. checkInference_iff — the acceptor for an explanation (premises -> conclusion, or -> false) is equivalent to semantic entailment from the single tagged constraint within the declared domains, hence sound AND complete (never rejects a valid explanation); accepted_propagation / accepted_conflict / never_prunes_solution / accepted_model_inference. Tie to code (hook: explanation tap): every propagation (reason computed immediately, lazy reasons included), every reported conflict, every reason handed to conflict analysis later (explicit, lazily recomputed, implicit) and every learned nogood during real searches is recorded with the propagator's tag and judged; 'all reason predicates hold in the state in which the reason is given' is evaluated inside the hook.",
         "level_note": LEVEL_NOTE_COMMON + "Enumeration limits trace acceptance to small domains; nogood-propagator reasons are judged against the whole model.",
     },
     "C19": {
